@@ -55,6 +55,11 @@ def handle (op : String) (a : Json) : P Json := do
     let l1 ← lanelet (← field a "l1")
     let l2 ← lanelet (← field a "l2")
     pure <| resJ laneletJ (mergeLanelets l1 l2)
+  | "merge_chain" =>
+    let ls ← getList lanelet a "lanelets"
+    match ls with
+    | [] => throw "merge_chain: empty"
+    | m :: xs => pure <| resJ laneletJ (mergeChain m xs)
   | "routes" =>
     -- one network, many (start, maxLen) queries; answers [succ paths, pred paths] per query
     let g ← getList node a "net"
